@@ -6,7 +6,7 @@ SPEC = dict(
     translators=[dict(cmd="tr_crc", out="Gen/Crc16Tab.v"), dict(cmd="tr_builders", out="Gen/Builders.v")],
     observers=[
         dict(cmd="obs_builders", imports=["Model.BuilderGraph", "Model.BuilderSem", "Model.BuilderGen"], case_type="BuilderSem.case",
-             check="BuilderGen.check_case", n={"quick": 900, "thorough": 60000}, shard=75,
+             check="BuilderGen.check_case", n={"quick": 900, "thorough": 15000}, shard=75,
              args=["-prop", "C32", "-spec", x_bld.spec_path()]),
     ],
     rule="every root constructor (575 commands) in turn plus random ones, random walks through the real method sets by reflection, "
